@@ -1,7 +1,7 @@
 (* C15 — lookups are coherent with listings and never ambiguous. *)
 From Coq Require Import List Arith Bool String Permutation.
-From PyHam Require Import Tax Ortho Loader Lookup.
-From PyHam.proofs Require Import NewickFacts LookupFacts.
+From PyHam Require Import Tax Ortho Loader Lookup Export Session.
+From PyHam.proofs Require Import NewickFacts LookupFacts SessionFacts NamesFacts.
 Import ListNotations.
 
 (* every listed gene is returned by the lookup by id; unknown ids raise KeyError *)
@@ -58,6 +58,21 @@ Theorem c15_mrca_set_order_irrelevant : forall t st gs gs',
   Permutation gs gs' -> get_mrca_genome_set t st gs = get_mrca_genome_set t st gs'.
 Proof. exact mrca_set_perm. Qed.
 Print Assumptions c15_mrca_set_order_irrelevant.
+
+(* coherence of the genome listings with the genome lookups in every state an analysis can reach: over a taxonomy
+   that was accepted, after any history of analysis calls (which may create genomes on demand) every ancestral genome
+   of the listing is returned by the lookup by its node and by its name, every extant genome by its name *)
+Theorem c15_genome_lookups_after_any_history : forall ui t0 t fo ops s0,
+  build_taxonomy ui t0 = Ok t ->
+  Forall (fun q => valid t q = true) (ss_genomes s0) -> args_ok (ss_genomes s0) ops ->
+  let s := srun t fo ops s0 in
+  (forall p, In p (ancestral_listing t s) -> s_anc_by_taxon t s p = Ok p /\ s_anc_by_name t s (tax_name t p) = Ok p) /\
+  (forall p, In p (extant_listing t s) -> s_ext_by_name t s (tax_name t p) = Ok p).
+Proof.
+  intros ui t0 t fo ops s0 Hb Hv Ha. apply listed_genomes_found_after_history; [|exact Hv|exact Ha].
+  exact (built_names_inj ui t0 t Hb).
+Qed.
+Print Assumptions c15_genome_lookups_after_any_history.
 
 Example c15_nonvacuous :
   build_taxonomy true (SNode "R" [SNode "X" [SNode "A" []; SNode "B" []]; SNode "X" [SNode "C" []; SNode "D" []]]) = Err KeyError /\
